@@ -9,11 +9,42 @@ EXPLANATION = ("Decides, for gix-packetline and its copy gix-packetline-blocking
                "(2) MAX_LINE_LEN == MAX_DATA_LEN + U16_HEX_BYTES == 65520, the flush/delim/response-end/ERR constants have git's values and the "
                "decoder's marker table pairs each constant with its own variant, the encoders write the same constant items; (3) every length "
                "prefix emitted by the encoder is cut off from entry unless `len <= MAX_DATA_LEN` held, and Writer::write chunks by min(MAX_DATA_LEN); "
-               "(4) reader buffers are sized by the MAX_LINE_LEN item. Chunking independence and side-band demultiplexing order are not decided; "
+               "(4) reader buffers are sized by the MAX_LINE_LEN item; (5) in read_line_inner the largest decoded length that passes the guard, plus the constant "
+               "prefix split off before it, fits MAX_LINE_LEN (constants read from evaluated MIR). Chunking independence and side-band demultiplexing order are not decided; "
                "the async-io variant compiles to coroutine state machines and is not analysed.")
 SPEC = {"U16_HEX_BYTES": 4, "MAX_DATA_LEN": 65516, "MAX_LINE_LEN": 65520,
         "FLUSH_LINE": b"0000", "DELIMITER_LINE": b"0001", "RESPONSE_END_LINE": b"0002", "ERR_PREFIX": b"ERR "}
 MARK = {"FLUSH_LINE": "Flush", "DELIMITER_LINE": "Delimiter", "RESPONSE_END_LINE": "ResponseEnd"}
+
+
+def payload_bound_rule(db, chk, crate):
+    """the bound that guards the payload split in read_line_inner is small enough for the buffer (shared with C06)"""
+    rli = db.one(r"^%s::read::blocking_io::.*::read_line_inner$" % crate)
+    rfl = Flow(rli)
+    splits = rli.calls_to(r"::split_at_mut$")
+    offs = [c.args[1]["v"] for c in splits if "v" in c.args[1]]
+    var = [c for c in splits if "p" in c.args[1]]
+    chk.floor("%s read_line_inner: constant prefix split + payload split" % crate, min(len(offs), len(var)), 1)
+    line_len = db.const("%s::MAX_LINE_LEN" % crate)["v"]
+    for c in var:
+        src = {r for r in rfl.roots(c.args[1], stop_named=False) if r[0] in ("call", "arg")}
+        best = None
+        for cm in comparisons(rli):
+            for side, other in (("a", "b"), ("b", "a")):
+                if "p" not in cm[side] or "v" not in cm[other]:
+                    continue
+                if not (src & {r for r in rfl.roots(cm[side], stop_named=False) if r[0] in ("call", "arg")}):
+                    continue
+                edges = upper_bounded_edges(rli, cm, side)
+                if not edges or not rfl.cut_off([c.block], edges):
+                    continue
+                op = cm["op"] if side == "a" else {"Lt": "Gt", "Le": "Ge", "Gt": "Lt", "Ge": "Le"}.get(cm["op"], cm["op"])
+                k = cm[other]["v"] - (1 if op in ("Lt", "Ge") else 0)   # largest value that passes
+                best = k if best is None else min(best, k)
+        ok = best is not None and offs and best + max(offs) <= line_len
+        chk.ob("payload-bound-fits-buffer", "%s read_line_inner" % crate, ok,
+               "largest payload length passing the guard is %s; with the %s-byte prefix it must fit the %s-byte line buffer" % (best, max(offs) if offs else "?", line_len),
+               c.where(), key="payload-bound-fits-buffer|%s" % crate)
 
 
 def run(db, chk):
@@ -102,4 +133,5 @@ def run(db, chk):
         st = db.one(r"^%s::decode::streaming$" % crate)
         g = [c for c in comparisons(st) if any(c[s].get("def", "").endswith("::MAX_LINE_LEN") for s in ("a", "b"))]
         chk.ob("streaming-bounds-line", "%s decode::streaming" % crate, bool(g), "must compare the wanted length with MAX_LINE_LEN", "%s:%d" % (st.file, st.line), key="streaming-bounds-line|%s" % crate)
+        payload_bound_rule(db, chk, crate)
     chk.assumptions.append("async-io variant (coroutines) not analysed; blocking-io build only")
